@@ -715,7 +715,7 @@ func (cch *cache) RefreshContainers(containers []*nri.Container) ([]Container, [
 
 	for _, c := range containers {
 		valid[c.Id] = struct{}{}
-		if _, ok := cch.Containers[c.Id]; !ok {
+		if cached, ok := cch.Containers[c.Id]; !ok {
 			log.Debug("inserting discovered container %s...", c.Id)
 			inserted, err := cch.InsertContainer(c)
 			if err != nil {
@@ -724,6 +724,9 @@ func (cch *cache) RefreshContainers(containers []*nri.Container) ([]Container, [
 			} else {
 				add = append(add, inserted)
 			}
+		} else {
+			// the runtime's list is the truth about the state of known containers, too
+			cached.UpdateState(c.GetState())
 		}
 	}
 
